@@ -19,7 +19,7 @@ RULE = ('pairs of magnitudes with/without absolute uncertainty, of either sign, 
         'operand; distinct by (op, signs, shapes, which side is uncertain, units)')
 SHARDS = {'quick': 16, 'thorough': 16}
 MIN_NONTRIVIAL = {'quick': 5000, 'thorough': 120000}
-REQUIRED_CLASSES = ['relative-uncertainty-input', 'relative-uncertainty-on-negative-value', 'relative-uncertainty-ctor', 'relative-uncertainty-setter', 'cancelling-units-collapse', 'quantity-ops-same-dimension-other-unit', 'mag:add', 'mag:sub', 'mag:mul', 'mag:truediv', 'mag:pow', 'mag:neg', 'exact-partner-negative', 'exact-partner-left',
+REQUIRED_CLASSES = ['relative-uncertainty-input', 'relative-uncertainty-on-negative-value', 'relative-uncertainty-ctor', 'relative-uncertainty-setter', 'relative-uncertainty-through-magnitude-object', 'cancelling-units-collapse', 'quantity-ops-same-dimension-other-unit', 'mag:add', 'mag:sub', 'mag:mul', 'mag:truediv', 'mag:pow', 'mag:neg', 'exact-partner-negative', 'exact-partner-left',
                     'both-uncertain-positive', 'both-exact', 'array', 'scalar', 'negative-exponent', 'quantity-conversion',
                     'quantity-mixed-unit-sum', 'quantity-ops', 'repo-tests-under-contracts', 'value-query-then-reuse', 'sum-evaluated-twice']
 REQUIRED_MONITORS = ['contract:Magnitude._add', 'contract:Magnitude._sub', 'contract:Magnitude._mul', 'contract:Magnitude._truediv',
@@ -119,7 +119,7 @@ def cases(rng, tier, shard, nshards, ctx):
             x = gv(rng, arr)
             yield dict(t='rel', level=rng.choice(['M', 'Q']), how=rng.choice(['ctor', 'setter']), x=x, p=rng.choice([1, 5, 10, 0.5, 20]), u=rng.choice(FAM[fam]),
                        v=rng.choice(FAM[fam]), op=rng.choice(['none', 'add', 'sub', 'mul', 'truediv', 'neg', 'pow', 'mulnum', 'to']),
-                       y=gv(rng, False), ey=ge(rng, 1.0) if rng.random() < 0.6 else None, k=rng.choice([-3.0, 2.0, -0.5, 4]))
+                       y=gv(rng, False), ey=ge(rng, 1.0) if rng.random() < 0.6 else None, k=rng.choice([-3.0, 2.0, -0.5, 4]), through_magnitude=rng.random() < 0.4)
         elif r < 0.89:
             fam = rng.choice(list(FAM))
             u, v = rng.sample(FAM[fam], 2)
@@ -311,7 +311,12 @@ def _run(case, ctx):
                 a = M(xv, rele=pct) if case['how'] == 'ctor' else M(xv).rele(pct)
                 b = M(case['y'], abse=case['ey']) if case['ey'] is not None else M(case['y'])
             else:
-                a = Q(xv, case['u'], rele=pct) if case['how'] == 'ctor' else Q(xv, case['u']).rele(pct)
+                if case['how'] == 'ctor' and case.get('through_magnitude'):
+                    # the third way in: a Magnitude object handed to the Quantity constructor together with rele=
+                    classes.append('relative-uncertainty-through-magnitude-object')
+                    a = Q(M(xv), case['u'], rele=pct)
+                else:
+                    a = Q(xv, case['u'], rele=pct) if case['how'] == 'ctor' else Q(xv, case['u']).rele(pct)
                 b = Q(case['y'], case['u'], abse=case['ey']) if case['ey'] is not None else Q(case['y'], case['u'])
             mon['relative_input_compares'] = 1
             ae = lst(a.abse())
